@@ -205,6 +205,9 @@ func (cfg *Config) paramExp(pe *syntax.ParamExp) (string, error) {
 			str = string(rs)
 		} // else, elems are already sliced
 	case pe.Repl != nil:
+		if !set && !indexAllElements {
+			break // like Bash, nothing is substituted in an unset parameter
+		}
 		elems, err := cfg.replaceElems(pe.Repl, elems)
 		if err != nil {
 			return "", err
